@@ -179,3 +179,16 @@ def placement_traces(ck, stims):
                      count_events=lambda t: len(t["adds"]))
     ck.classify(fails, lambda fl: {"alg": fl["trace"]["alg"], "vals": fl["trace"]["vals"], "k": fl["trace"]["k"], "C": fl["trace"]["C"], "at": fl["e"], "adds": fl["trace"]["adds"][:fl["e"]]})
     ck.cat("placement_traces", len(traces))
+
+
+def ilp_mc(ck, quick):
+    """the ILP partitioner with the solver as a nondeterministic oracle (any status, any optimal answer); negative control: sorting always (the pre-repair code)"""
+    base = ("CONSTANTS MaxN = %d MaxV = 3 MaxK = %d Weights = {1, 2} Copies = {0, 1, 2} Statuses = {\"OPTIMAL\", \"FEASIBLE\", \"INFEASIBLE\", \"NO_SOLUTION_FOUND\"} SortAlways = %s\n"
+            "INIT Init\nNEXT Next\nINVARIANT CopiesHonoured\nINVARIANT OrderOrCorrespondence\nINVARIANT ConstraintHolds\nINVARIANT OptimalAmongConstrained\nINVARIANT RefusesUnlessOptimal\n")
+    ck.mc("ILP", base % (2, 2 if quick else 3, "FALSE"), "MC ILP machine with oracle solver: every status and every optimal answer leads to a result that honours copies, order/correspondence, constraint, optimality",
+          coverage=True, required_actions=("Solve", "Raise", "Extract"))
+    r = ck.mc("ILP", base % (2, 2, "TRUE"), "negative control: sorting the result by raw sum regardless of the weights breaks the bin<->weight correspondence", expect_violation=None)
+    if not r.violated:
+        raise core.Machinery("negative control of ILP.tla: TLC found no counterexample with SortAlways = TRUE")
+    ck.violations = [v for v in ck.violations if not v[0].startswith("model:ILP")]
+    ck.cat("ilp_negative_control_counterexample_found", 1)
